@@ -99,7 +99,7 @@ def check(ctx):
             if len(arms) == 1:
                 d = arms[0].a["delay"]
                 ka = ("param", "keepalive")
-                okd = (d == ("boolop", "Or", (ka, ("const", 10)))) or (isinstance(d, tuple) and d[0] == "ifexp" and set(d[1:]) == {ka, ("const", 10)})
+                okd = (d == ("boolop", "Or", (ka, ("const", 10)))) or (isinstance(d, tuple) and d[0] == "ifexp" and set(d[1:3]) == {ka, ("const", 10)})
             ctx.ob("K1", "%s connect() arms one timeout of `keepalive or 10` seconds" % cq, okd, where=where(arms[0]) if arms else w,
                    function=ent.func.qual, construct="%s.connect/timeout" % cls.qual,
                    msg="timeout armed: %s" % [show(x.a["delay"]) for x in arms])
